@@ -2,7 +2,7 @@ from dataclasses import dataclass
 
 from xdsl.context import Context
 from xdsl.dialects import builtin, scf
-from xdsl.ir import OpResult, SSAValue
+from xdsl.ir import BlockArgument, OpResult, SSAValue
 from xdsl.passes import ModulePass
 from xdsl.pattern_rewriter import (
     GreedyRewritePatternApplier,
@@ -135,6 +135,18 @@ class PullSetupOpsOutOfLoops(RewritePattern):
                     # all unsafe vals from the safe vals.
                     acc_fields_to_values[key] = val
                     safe_values.add(key)
+        # a value can only be hoisted if it still holds at the end of the loop body (otherwise it
+        # has to be set up again in the next iteration anyway), and hoisting is only useful (and
+        # only terminates) if the value is not already set up before the loop
+        init_state = infer_state_of(get_initial_value_for_scf_for_lcv(loop_op, op.in_state))
+        yield_op = loop_op.body.block.last_op
+        assert isinstance(yield_op, scf.YieldOp)
+        assert isinstance(op.in_state, BlockArgument)
+        yield_state = infer_state_of(yield_op.operands[op.in_state.index - 1])
+        for key, val in acc_fields_to_values.items():
+            if yield_state.get(key) != val or init_state.get(key) == val:
+                unsafe_vals.add(key)
+
         # remove all unsafe vals form potentially safe values
         # also pick a deterministic, fixed order for the rest of the rewrite
         loop_invariant_options = tuple(sorted(safe_values - unsafe_vals))
